@@ -90,7 +90,8 @@ def _random_op(r, cur):
     L, S, T, X = cur["L"], cur["S"], cur["T"], cur["X"]
     opts = []
     if L:
-        opts += ["net_remove_lanelet", "sc_remove_lanelet", "sc_remove_lanelet", "cut_shape", "cut_types", "from_list"]
+        opts += ["net_remove_lanelet", "net_remove_lanelet_nortree", "sc_remove_lanelet", "sc_remove_lanelet", "cut_shape",
+                 "cut_types", "from_list"]
     if S:
         opts += ["net_remove_sign", "sc_remove_sign"]
     if T:
@@ -100,7 +101,7 @@ def _random_op(r, cur):
     if not opts:
         return None
     op = r.choice(opts)
-    if op == "net_remove_lanelet":
+    if op in ("net_remove_lanelet", "net_remove_lanelet_nortree"):
         return {"op": op, "ids": [r.choice(L)], "ref": 0}
     if op == "sc_remove_lanelet":
         return {"op": op, "ids": r.sample(L, r.randint(1, min(2, len(L)))), "ref": r.randint(0, 1)}
@@ -220,13 +221,15 @@ def apply_op(net, a, variant):
         for i in ids:
             if op == "net_remove_lanelet":
                 net.remove_lanelet(i)
+            elif op == "net_remove_lanelet_nortree":
+                net.remove_lanelet(i, rtree=False)
             elif op == "net_remove_sign":
                 net.remove_traffic_sign(i)
             elif op == "net_remove_light":
                 net.remove_traffic_light(i)
             elif op == "net_remove_inter":
                 net.remove_intersection(i)
-        return net, "single"
+        return net, "single" if not op.endswith("nortree") else "rtree=False"
     if op.startswith("sc_"):
         sc = G.scenario()
         sc.add_objects(net)
